@@ -906,3 +906,587 @@ def random_input(rng, R, C, nitems):
         else:
             syms += rng.choice([['ESC'], ['ESC', '['], ['ESC', '[', '1'], ['ESC', '[', '1', ';'], ['ESC', '[', '?'], ['ESC', '(']])
     return syms
+
+
+# ---------------------------------------------------------------------------------------------
+# TLC trace validation (batch idiom of tracecheck.validate; here every batch has its own Rows/Cols)
+# ---------------------------------------------------------------------------------------------
+def validate(ctx, traces, R, C, tag, procs=NPROC, timeout=1500):
+    """traces: [{'id':..., 'ev': [...]}] of one screen size -> ({id: (verdict, event index)}, stats)"""
+    from concurrent.futures import ThreadPoolExecutor
+    if not traces:
+        return {}, dict(generated=0, distinct=0, wall_s=0.0, runs=0, cmd='')
+    nev = sum(len(t['ev']) for t in traces)
+    procs = max(1, min(procs, len(traces), (nev * R * C) // 200000 + 1))
+    parts = [traces[i::procs] for i in range(procs)]
+    cfg = tlc.write_cfg(os.path.join(ctx.work, '%s.cfg' % tag), spec='TraceSpec', constants=[
+        ('Rows', '= %d' % R), ('Cols', '= %d' % C), ('Chars', '<- Chars3'), ('Slack', '= 1')], invariants=['PossGood'])
+
+    def one(i):
+        tf = os.path.join(ctx.work, '%s.%d.json' % (tag, i))
+        with open(tf, 'w') as f:
+            json.dump([{'id': t['id'], 'ev': t['ev']} for t in parts[i]], f)
+        res = tlc.run('ScreenAnsiTrace', cfg, ctx.work, workers=1, timeout=timeout, env={'TRACE_FILE': tf},
+                      outname='%s.%d.out' % (tag, i), heap='3g')
+        txt = open(res['out'], errors='replace').read()
+        v = {}
+        for m in tracecheck._VERDICT.finditer(txt):
+            v[json.loads(m.group(2)) if m.group(2).startswith('"') else int(m.group(2))] = (m.group(3), int(m.group(4)))
+        os.remove(tf)
+        return res, v, len(parts[i])
+
+    t0 = time.time()
+    with ThreadPoolExecutor(procs) as ex:
+        results = list(ex.map(one, range(procs)))
+    verdicts, gen, dist = {}, 0, 0
+    for res, v, n in results:
+        if res['machinery_error'] or res['timed_out'] or res['violated'] or len(v) != n:
+            raise tlc.TLCError('trace validation run failed (rc=%s, %d/%d verdicts, violated=%s): %s' % (
+                res['rc'], len(v), n, res['violated'], res['out']))
+        verdicts.update(v)
+        gen += res['generated']
+        dist += res['distinct']
+    return verdicts, dict(generated=gen, distinct=dist, wall_s=round(time.time() - t0, 2), runs=procs, cmd=results[0][0]['cmd'])
+
+
+# ---------------------------------------------------------------------------------------------
+# model checking
+# ---------------------------------------------------------------------------------------------
+def model_check(ctx, pid):
+    out = []
+    for cfg in MC_CFG[(pid, ctx.tier)]:
+        res = tlc.run('MCScreen' if pid == 'C19' else 'MCAnsi', cfg, ctx.work, workers=NPROC, timeout=1700,
+                      outname=cfg + '.out', heap='8g')
+        tlc.require_ok(res, cfg)
+        if res['violated']:
+            raise tlc.TLCError('%s: the reference model violates %s - a bug of the specification, see %s' % (
+                cfg, res['violated'], res['out']))
+        ctx.note('TLC %s: %d states generated, %d distinct, depth %d, invariants hold (%.0fs)' % (
+            cfg, res['generated'], res['distinct'], res['depth'], res['wall_s']))
+        out.append(res)
+    # per-action coverage (vacuity guard) on the first dumped configuration is taken from the graph itself; here TLC's
+    # own coverage statistics on a small configuration
+    covcfg = 'MCScreen_cov.cfg' if pid == 'C19' else 'MCAnsi_cov.cfg'
+    cov = tlc.run('MCScreen' if pid == 'C19' else 'MCAnsi', covcfg, ctx.work, workers=NPROC, timeout=900, coverage=True,
+                  outname=covcfg + '.out')
+    tlc.require_ok(cov, covcfg)
+    need = SCREEN_ACTIONS if pid == 'C19' else ['Feed']
+    for a in need:
+        if cov['coverage'].get(a, (0, 0))[1] == 0:
+            raise tlc.TLCError('action %s never taken in %s (vacuous model run)' % (a, covcfg))
+    return out, cov
+
+
+def graph_coverage(g, pid):
+    """transitions per action (C19) / per (parser state, symbol) (C18) in a dumped graph"""
+    c = Counter()
+    if pid == 'C19':
+        for i in range(len(g.lab)):
+            c[g.labels[g.lab[i]][0]] += 1
+    else:
+        for i in range(len(g.lab)):
+            c[(g.states[g.pre[i]][4], g.labels[g.lab[i]][1][0])] += 1
+    return c
+
+
+# ---------------------------------------------------------------------------------------------
+# C19
+# ---------------------------------------------------------------------------------------------
+SIZES_RANDOM = [(24, 80), (1, 1), (1, 7), (5, 1), (3, 5), (7, 3), (4, 5), (10, 10), (2, 2)]
+
+
+def screen_traces(ctx, quick):
+    """seeded random operation sequences on 24x80 and odd sizes -> {(R, C): [trace]}"""
+    out = {}
+    tid = 0
+    for si, (R, C) in enumerate(SIZES_RANDOM):
+        n = (30 if quick else 250) if R * C > 500 else (150 if quick else 1500)
+        nops = 50 if R * C > 500 else 30
+        lst = []
+        for k in range(n):
+            rng = random.Random(ctx.seed * 7919 + si * 100003 + k)
+            enc = rng.choice([None, 'latin-1', 'latin-1', 'utf-8', 'cp437'])
+            script = random_screen_script(rng, R, C, enc, nops)
+            ev = run_screen_script(R, C, enc, script)
+            lst.append({'id': tid, 'ev': ev, 'meta': {'kind': 'screen-trace', 'rows': R, 'cols': C, 'enc': enc,
+                                                      'script': [list(s) for s in script]}})
+            tid += 1
+        out[(R, C)] = lst
+    return out
+
+
+def report_trace_failures(ctx, pid, traces, verdicts, stats):
+    for t in traces:
+        v, at = verdicts[t['id']]
+        stats['verdicts'][v.split(':')[0] if v.startswith('drift') else v] += 1
+        if v.startswith('drift'):
+            ctx.drift += 1
+            if len(stats['drift_samples']) < 5:
+                stats['drift_samples'].append({'verdict': v, 'meta': t['meta'], 'event': at})
+            continue
+        if v != 'ok' and v.startswith(pid + ':'):
+            e = t['ev'][at - 2] if 2 <= at <= len(t['ev']) + 1 else None
+            ctx.fail(v, t['meta'], detail={'event_index': at - 1, 'event': e},
+                     signature={'method': (e or {}).get('m'), 'rows': t['meta']['rows'], 'cols': t['meta']['cols']})
+        elif v != 'ok':
+            raise tlc.TLCError('trace %s: verdict %s does not belong to %s' % (t['id'], v, pid))
+
+
+def run_c19(ctx):
+    quick = ctx.quick()
+    mc, cov = model_check(ctx, 'C19')
+    total = Collector()
+    gstats = []
+    states = transitions = 0
+    samples = []
+    seen_actions = Counter()
+    for conf in DUMPS[('C19', ctx.tier)]:
+        t0 = time.time()
+        g, res = dump_graph(ctx, 'C19', conf)
+        R, C = conf[0], conf[1]
+        table = accessor_table(ctx, conf)
+        t1 = time.time()
+        seen_actions.update(graph_coverage(g, 'C19'))
+        shared = {'graph': g, 'R': R, 'C': C, 'cwd': ctx.work, 'table': table, 'seed': ctx.seed}
+        col = pool_map(_screen_worker, len(g.pre), shared)
+        ntr = col.count['evaluations']
+        col2 = pool_map(_accessor_worker, len(g.states), shared)
+        total.merge(col)
+        total.merge(col2)
+        states += len(g.states)
+        transitions += len(g.pre)
+        gstats.append({'screen': '%dx%d' % (R, C), 'chars': conf[2], 'slack': conf[3], 'maxlevel': conf[4], 'states': len(g.states),
+                       'transitions': len(g.pre), 'implementation_tests': ntr, 'accessor_calls': col2.count['evaluations'],
+                       'tlc_s': round(t1 - t0, 1), 'replay_s': round(time.time() - t1, 1)})
+        ctx.note('graph %dx%d %s slack %d%s: %d states, %d transitions -> %d implementation tests + %d accessor calls in %d '
+                 'states (TLC+parse %.0fs, replay %.0fs)' % (R, C, conf[2], conf[3], ' level<%d' % conf[4] if conf[4] else '',
+                                                           len(g.states), len(g.pre), ntr, col2.count['evaluations'],
+                                                           len(g.states), t1 - t0, time.time() - t1))
+        if len(samples) < 3 and len(g.pre) > 10:
+            i = (len(g.pre) * 2) // 3
+            samples.append({'screen': '%dx%d' % (R, C), 'pre': st_json(g.states[g.pre[i]]), 'action': list(g.labels[g.lab[i]]),
+                            'post': [st_json(e) for e in g.expected(i)]})
+        last = (g, R, C, table)
+    for a in SCREEN_ACTIONS:
+        if seen_actions[a] == 0:
+            raise tlc.TLCError('no transition of action %s in the dumped graphs' % a)
+    # binding self-test 1: a transition whose expected post-state was corrupted must be noticed
+    g, R, C, table = last
+    probe = Collector()
+    k = next(i for i in range(len(g.pre)) if g.labels[g.lab[i]][0] == 'PutAbs' and g.pre[i] != g.post[i])
+    good = g.expected(k)
+    name, args = g.labels[g.lab[k]]
+    screen_transition(Objects(), R, C, g.states[g.pre[k]], name, args, k, good, probe)
+    ok_clean = not probe.fail
+    bad = [(e[0], (e[1][0] % R + 1, e[1][1]), e[2], e[3]) if R > 1 else (e[0], (e[1][0], e[1][1] % C + 1), e[2], e[3]) for e in good]
+    screen_transition(Objects(), R, C, g.states[g.pre[k]], name, args, k, bad, probe)
+    bad2 = [(g.states[g.pre[k]][0],) + e[1:] for e in good]
+    n1 = len(probe.fail)
+    screen_transition(Objects(), R, C, g.states[g.pre[k]], name, args, k, bad2, probe)
+    if R * C == 1 or not ok_clean or n1 == 0 or len(probe.fail) == n1:
+        raise tlc.TLCError('C19 self-test: a corrupted expected post-state was not noticed')
+    ctx.note('binding self-test: expected cursor / expected grid of one transition corrupted -> %s' % ', '.join(
+        f[0] for f in probe.fail))
+    # seeded random sequences on 24x80 and odd sizes, validated by TLC against ScreenAnsiTrace
+    t0 = time.time()
+    corpus = screen_traces(ctx, quick)
+    gen_s = time.time() - t0
+    tstats = {'verdicts': Counter(), 'drift_samples': [], 'tlc_states': 0, 'traces': 0, 'events': 0, 'cmd': ''}
+    t0 = time.time()
+    for (R, C), traces in corpus.items():
+        verdicts, st = validate(ctx, traces, R, C, 'st_%dx%d' % (R, C))
+        report_trace_failures(ctx, 'C19', traces, verdicts, tstats)
+        tstats['tlc_states'] += st['distinct']
+        tstats['traces'] += len(traces)
+        tstats['events'] += sum(len(t['ev']) for t in traces)
+        tstats['cmd'] = st['cmd']
+    ctx.note('%d random operation sequences (%d events) on %s executed in %.0fs and validated by TLC in %.0fs: %s' % (
+        tstats['traces'], tstats['events'], ', '.join('%dx%d' % s for s in corpus), gen_s, time.time() - t0,
+        ', '.join('%s x%d' % kv for kv in sorted(tstats['verdicts'].items()))))
+    # binding self-test 2: a corrupted observation in a recorded trace must be rejected
+    st2 = trace_self_test(ctx, corpus, 'C19')
+    ctx.note('binding self-test (trace): ' + ', '.join('%s -> %s' % kv for kv in sorted(st2.items())))
+    for clause, case, detail, sig in total.fail:
+        ctx.fail(clause, case, detail, sig)
+    extra = sum(total.nfail.values()) - len(total.fail)
+    if extra:
+        ctx.note('%d further failing transition tests not listed individually: %s' % (extra, dict(total.nfail)))
+    status, nviol, nknown = common.conclude(ctx)
+    nviol_all = nviol + extra if nviol else 0
+    evidence.write('C19', ctx.tier, ctx.seed, 'model_checking', {
+        'states': states, 'transitions': transitions,
+        'traces_validated_against_impl': tstats['traces'],
+        'samples': samples + [{'trace_meta': corpus[(3, 5)][0]['meta'], 'events': corpus[(3, 5)][0]['ev'][:6]}],
+        'evaluations': total.count['evaluations'] + tstats['events'],
+        'distinct_nontrivial': total.count['nontrivial'],
+        'rule': 'one implementation test per transition (pre-state, action+arguments, post-state) of the dumped TLC state '
+                'graphs, per python spelling of the action (explicit / default arguments), on a real screen object built in '
+                'the pre-state; plus every accessor with every argument tuple in every state of the graphs against the table '
+                'TLC evaluated; non-trivial = the test passed and the state changed (or the accessor returned the expected '
+                'value); plus seeded random sequences validated by TLC (ScreenAnsiTrace)',
+        'exhaustive': True,
+        'graphs': gstats,
+        'model': {'module': 'MCScreen', 'runs': [{'cfg': r['cmd'].split('-config ')[1].split()[0], 'distinct': r['distinct'],
+                                                  'generated': r['generated'], 'depth': r['depth'], 'wall_s': r['wall_s']} for r in mc],
+                  'action_coverage': {k: v[1] for k, v in cov['coverage'].items()}},
+        'trace_validation': {'module': 'ScreenAnsiTrace', 'tlc_states': tstats['tlc_states'], 'cmd': tstats['cmd'],
+                             'verdict_counts': dict(tstats['verdicts']), 'self_test': st2},
+        'failing_tests_total': dict(total.nfail), 'known_findings_hit': nknown,
+    }, assumptions=[
+        'cell contents are abstracted to {blank, x, other}: the code never branches on a cell value',
+        'exhaustive per-transition conformance on the dumped small screens (every reachable state x every action x every '
+        'argument in the domain); larger screens are covered by seeded random sequences',
+        'character arguments are single characters given as str or as bytes in the object encoding',
+    ], wall_s=ctx.wall(), violations=nviol_all)
+    return status
+
+
+def trace_self_test(ctx, corpus, pid):
+    import copy
+    size = (3, 5) if (3, 5) in corpus else sorted(corpus)[0]
+    cands = [t for t in corpus[size] if len(t['ev']) >= 6 and all(e['obs']['raised'] == '' for e in t['ev'])]
+    if not cands:
+        cands = [t for ts in corpus.values() for t in ts if len(t['ev']) >= 6]
+        size = (cands[0]['meta']['rows'], cands[0]['meta']['cols'])
+    t = cands[0]
+    clean = copy.deepcopy(t); clean['id'] = 'clean'
+    a = copy.deepcopy(t); a['id'] = 'corrupt-cursor'
+    e = a['ev'][3]['obs']
+    e['cur'] = [e['cur'][0], e['cur'][1] % size[1] + 1] if size[1] > 1 else [e['cur'][0] % size[0] + 1, e['cur'][1]]
+    b = copy.deepcopy(t); b['id'] = 'corrupt-cell'
+    row = [('x' if c != 'x' else ' ') for c in ([' '] * size[1])]
+    b['ev'][2]['obs']['rows'] = [[1, row]]
+    c = copy.deepcopy(t); c['id'] = 'lost-row'
+    c['ev'][4]['obs']['nrows'] = size[0] - 1
+    v, _ = validate(ctx, [clean, a, b, c], size[0], size[1], 'selftest', procs=1)
+    res = {k: v[k][0] for k in v}
+    if pid == 'C19':
+        bad = [k for k in ('corrupt-cursor', 'corrupt-cell', 'lost-row') if res[k] == 'ok']
+    else:
+        bad = [k for k in ('corrupt-cursor', 'corrupt-cell') if not res[k].startswith('drift')]
+        if not res['lost-row'].startswith('C18:shape'):
+            bad.append('lost-row')
+    if bad:
+        raise tlc.TLCError('binding self-test: corrupted trace(s) %s accepted (%s)' % (bad, res))
+    return res
+
+
+# ---------------------------------------------------------------------------------------------
+# C18
+# ---------------------------------------------------------------------------------------------
+CHUNK_MODES = [(None, 'str'), ('utf-8', 'bytes'), ('latin-1', 'bytes'), ('cp437', 'bytes'), ('utf-8', 'str'), ('utf-8', 'bytes')]
+
+
+def full_state(o, R, C, exc):
+    ok = grid_shape_ok(o.w, R, C)
+    return (proj_screen(o, None, False) if ok else ('bad-shape', repr(o.w)[:200]), str(o.state.current_state),
+            tuple(repr(x) for x in o.state.memory[1:]) if type(o.state.memory) is list else repr(o.state.memory),
+            type(exc).__name__ if exc is not None else '')
+
+
+def run_pieces_full(R, C, enc, pieces):
+    """-> [(symbols consumed so far, full state)] after every piece"""
+    with warnings.catch_warnings():
+        warnings.simplefilter('ignore')
+        o = ANSI.ANSI(R, C, encoding=enc)
+    out, n = [(0, full_state(o, R, C, None))], 0
+    for data, done in pieces:
+        exc = None
+        try:
+            o.write(data)
+        except Exception as e:
+            exc = e
+        n += len(done)
+        out.append((n, full_state(o, R, C, exc)))
+        if exc is not None:
+            break
+    return out
+
+
+def chunk_case(R, C, syms, enc, form, units, col, maxcuts, limit, rng, only_cuts=None):
+    """reference = one write per symbol; every split into <= maxcuts+1 pieces must pass through the reference states"""
+    whole = (b'' if form == 'bytes' else '').join(units)
+    ends, n = [], 0
+    for u in units:
+        n += len(u)
+        ends.append(n)
+    ref = run_pieces_full(R, C, enc, pieces_of(units, ends[:-1], form))
+    raised_at = next((k for k, (_, st) in enumerate(ref) if st[3]), None)
+    refmap = dict(ref)
+    cutsets = [tuple(only_cuts)] if only_cuts is not None else all_cuts(len(whole), maxcuts, limit, rng)
+    for cuts in cutsets:
+        pcs = pieces_of(units, cuts, form)
+        got = run_pieces_full(R, C, enc, pcs)
+        col.count['evaluations'] += 1
+        inside = sum(1 for c in cuts if c not in ends)
+        if inside:
+            col.count['cuts_inside_multibyte'] += 1
+        for k, (nsym, st) in enumerate(got[1:]):
+            want = refmap.get(nsym)
+            if raised_at is not None and nsym >= ref[raised_at][0]:
+                want = ref[raised_at][1]
+            if st != want:
+                col.add('C18:chunking', {'kind': 'chunking', 'rows': R, 'cols': C, 'enc': enc, 'form': form, 'syms': syms,
+                                         'units': [arg_json(u) for u in units], 'cuts': list(cuts)},
+                        {'piece': k, 'symbols_consumed': nsym, 'state_after_piece': repr(st)[:600],
+                         'state_when_fed_symbol_by_symbol': repr(want)[:600]}, {'rows': R, 'cols': C, 'enc': enc})
+                break
+            if st[3]:
+                break
+        else:
+            col.count['nontrivial'] += 1 if cuts else 0
+
+
+def _chunk_worker(rng_):
+    lo, hi = rng_
+    os.chdir(_G['cwd'])
+    col = Collector()
+    col.traces = []
+    for i in range(lo, hi):
+        R, C, syms = _G['inputs'][i]
+        rng = random.Random(_G['seed'] * 104729 + i)
+        enc, form = CHUNK_MODES[i % len(CHUNK_MODES)]
+        units = concretize(rng, syms, enc, form)
+        chunk_case(R, C, syms, enc, form, units, col, 3, _G['limit'], rng)
+        # the symbol-by-symbol run and the whole-input run go to TLC
+        ends, n = [], 0
+        for u in units:
+            n += len(u)
+            ends.append(n)
+        meta = {'kind': 'ansi-trace', 'rows': R, 'cols': C, 'enc': enc, 'form': form, 'units': [arg_json(u) for u in units],
+                'syms': syms}
+        col.traces.append({'id': 'sym-%d' % i, 'ev': run_feed(R, C, enc, [(d, [syms[k] for k in done]) for d, done in
+                                                                       pieces_of(units, ends[:-1], form)]),
+                           'meta': dict(meta, cuts=ends[:-1])})
+        col.traces.append({'id': 'whole-%d' % i, 'ev': run_feed(R, C, enc, [(d, [syms[k] for k in done]) for d, done in
+                                                                         pieces_of(units, [], form)]),
+                           'meta': dict(meta, cuts=[])})
+    return col
+
+
+def pool_map_traces(fn, n, shared):
+    """like pool_map, for workers that also return col.traces"""
+    _G.clear()
+    _G.update(shared)
+    step = max(1, (n + NPROC * 4 - 1) // (NPROC * 4))
+    ranges = [(i, min(n, i + step)) for i in range(0, n, step)]
+    total = Collector()
+    total.traces = []
+    ctxm = multiprocessing.get_context('fork')
+    with ctxm.Pool(NPROC) as pool:
+        for col in pool.imap(fn, ranges):
+            total.merge(col)
+            total.traces += col.traces
+    return total
+
+
+def ansi_random_traces(ctx, quick):
+    out = {}
+    for si, (R, C) in enumerate(SIZES_RANDOM):
+        n = (40 if quick else 300) if R * C > 500 else (150 if quick else 1200)
+        lst = []
+        for k in range(n):
+            rng = random.Random(ctx.seed * 15485863 + si * 1000003 + k)
+            enc, form = rng.choice(CHUNK_MODES)
+            syms = random_input(rng, R, C, rng.randint(8, 40 if R * C > 500 else 20))
+            units = concretize(rng, syms, enc, form)
+            total = sum(len(u) for u in units)
+            ncuts = rng.choice([0, 1, 2, max(1, total // 7), max(1, total // 3)])
+            cuts = sorted(rng.sample(range(1, total), min(ncuts, total - 1))) if total > 1 else []
+            pcs = [(d, [syms[j] for j in done]) for d, done in pieces_of(units, cuts, form)]
+            ev = run_feed(R, C, enc, pcs)
+            lst.append({'id': 'r%d-%d' % (si, k), 'ev': ev, 'meta': {'kind': 'ansi-trace', 'rows': R, 'cols': C, 'enc': enc,
+                                                                   'form': form, 'units': [arg_json(u) for u in units],
+                                                                   'syms': syms, 'cuts': cuts}})
+        out[(R, C)] = lst
+    return out
+
+
+def run_c18(ctx):
+    quick = ctx.quick()
+    mc, cov = model_check(ctx, 'C18')
+    total = Collector()
+    gstats, samples = [], []
+    states = transitions = 0
+    pairs = Counter()
+    last = None
+    for conf in DUMPS[('C18', ctx.tier)]:
+        t0 = time.time()
+        g, res = dump_graph(ctx, 'C18', conf)
+        R, C = conf[0], conf[1]
+        t1 = time.time()
+        pairs.update(graph_coverage(g, 'C18'))
+        col = pool_map(_ansi_worker, len(g.pre), {'graph': g, 'R': R, 'C': C, 'cwd': ctx.work, 'seed': ctx.seed})
+        total.merge(col)
+        states += len(g.states)
+        transitions += len(g.pre)
+        gstats.append({'screen': '%dx%d' % (R, C), 'chars': conf[2], 'maxlevel': conf[4], 'maxstack': conf[5], 'states': len(g.states),
+                       'transitions': len(g.pre), 'implementation_tests': col.count['evaluations'], 'drift': col.count['drift'],
+                       'tlc_s': round(t1 - t0, 1), 'replay_s': round(time.time() - t1, 1)})
+        ctx.note('graph %dx%d %s stack<=%d%s: %d states, %d transitions -> %d implementation tests (TLC+parse %.0fs, replay %.0fs)%s' % (
+            R, C, conf[2], conf[5], ' level<%d' % conf[4] if conf[4] else '', len(g.states), len(g.pre), col.count['evaluations'],
+            t1 - t0, time.time() - t1, ', SPEC-DRIFT on %d' % col.count['drift'] if col.count['drift'] else ''))
+        if len(samples) < 3 and len(g.pre) > 10:
+            i = (len(g.pre) * 2) // 3
+            samples.append({'screen': '%dx%d' % (R, C), 'pre': st_json(g.states[g.pre[i]]), 'action': list(g.labels[g.lab[i]]),
+                            'post': [st_json(e) for e in g.expected(i)]})
+        last = (g, R, C)
+    # every (parser state, input class) pair was replayed
+    from itertools import product
+    syms_all = set(s for (_, s) in pairs)
+    missing = [(st, s) for st, s in product(ANSI_STATES, sorted(syms_all)) if pairs[(st, s)] == 0]
+    if missing or len(syms_all) < 40:
+        raise tlc.TLCError('dumped graphs lack transitions for %d (state, symbol) pairs, e.g. %s' % (len(missing), missing[:3]))
+    ctx.drift += total.count['drift']
+    # binding self-test 1
+    g, R, C = last
+    probe = Collector()
+    k = next(i for i in range(len(g.pre)) if g.labels[g.lab[i]][1][0] == 'H' and g.states[g.pre[i]][4] == 'NUMBER_2'
+             and g.pre[i] != g.post[i])
+    good = g.expected(k)
+    ansi_transition(Objects(), R, C, g.states[g.pre[k]], 'H', k, good, probe)
+    clean = not probe.fail and probe.count['drift'] == 0
+    bad = [e[:5] + ((1,),) for e in good]                # expected residue on the stack
+    ansi_transition(Objects(), R, C, g.states[g.pre[k]], 'H', k, bad, probe)
+    bad2 = [e[:4] + ('ELB', ()) for e in good]           # expected: sequence not completed
+    ansi_transition(Objects(), R, C, g.states[g.pre[k]], 'H', k, bad2, probe)
+    if not clean or probe.count['drift'] != 2:
+        raise tlc.TLCError('C18 self-test: a corrupted expected post-state was not noticed (%s)' % dict(probe.count))
+    ctx.note('binding self-test: expected stack / expected parser state of one transition corrupted -> noticed (2 of 2)')
+    # chunk independence: TLC -simulate behaviours + grammar-generated input, every split into <= 4 pieces
+    t0 = time.time()
+    inputs = []
+    simres = []
+    for (R, C, num, depth) in ([(2, 3, 150, 12), (1, 2, 60, 10), (3, 4, 60, 14)] if quick else
+                               [(2, 3, 1500, 13), (1, 2, 400, 10), (3, 4, 800, 15), (1, 1, 200, 10), (4, 1, 300, 12)]):
+        seqs, res = sim_symbols(ctx, R, C, num, depth, ctx.seed + 1)
+        simres.append(res['cmd'])
+        inputs += [(R, C, s) for s in seqs]
+    nsim = len(inputs)
+    for k in range(250 if quick else 3000):
+        rng = random.Random(ctx.seed * 32452843 + k)
+        R, C = rng.choice([(2, 2), (2, 3), (3, 4), (1, 3), (3, 1), (4, 5)])
+        inputs.append((R, C, random_input(rng, R, C, rng.randint(1, 3))))
+    ch = pool_map_traces(_chunk_worker, len(inputs), {'inputs': inputs, 'cwd': ctx.work, 'seed': ctx.seed,
+                                                      'limit': 250 if quick else 600})
+    total.merge(ch)
+    ctx.note('chunk independence: %d inputs (%d TLC -simulate behaviours, %d grammar-generated), %d splits into <= 4 pieces fed to '
+             'the real emulator (%d with a cut inside a multi-byte character) in %.0fs' % (
+                 len(inputs), nsim, len(inputs) - nsim, ch.count['evaluations'], ch.count['cuts_inside_multibyte'], time.time() - t0))
+    # TLC validates the symbol-by-symbol and the whole-input runs of those inputs, and the random sequences
+    t0 = time.time()
+    corpus = ansi_random_traces(ctx, quick)
+    for t in ch.traces:
+        corpus.setdefault((t['meta']['rows'], t['meta']['cols']), []).append(t)
+    gen_s = time.time() - t0
+    tstats = {'verdicts': Counter(), 'drift_samples': [], 'tlc_states': 0, 'traces': 0, 'events': 0, 'cmd': ''}
+    t0 = time.time()
+    for (R, C), traces in corpus.items():
+        verdicts, st = validate(ctx, traces, R, C, 'at_%dx%d' % (R, C))
+        report_trace_failures(ctx, 'C18', traces, verdicts, tstats)
+        tstats['tlc_states'] += st['distinct']
+        tstats['traces'] += len(traces)
+        tstats['events'] += sum(len(t['ev']) for t in traces)
+        tstats['cmd'] = st['cmd']
+    ctx.note('%d recorded runs (%d write() events) on %s validated by TLC in %.0fs (recording %.0fs): %s' % (
+        tstats['traces'], tstats['events'], ', '.join('%dx%d' % s for s in sorted(corpus)), time.time() - t0, gen_s,
+        ', '.join('%s x%d' % kv for kv in sorted(tstats['verdicts'].items()))))
+    st2 = trace_self_test(ctx, {k: [t for t in v if str(t['id']).startswith('r')] for k, v in corpus.items()}, 'C18')
+    ctx.note('binding self-test (trace): ' + ', '.join('%s -> %s' % kv for kv in sorted(st2.items())))
+    if ctx.drift:
+        d = (total.drift + tstats['drift_samples'])[:3]
+        print('SPEC-DRIFT property=C18: %d disagreement(s) with AnsiFsm that keep the stated property, e.g. %s' % (
+            ctx.drift, json.dumps(d, default=str)[:900]))
+    for clause, case, detail, sig in total.fail:
+        ctx.fail(clause, case, detail, sig)
+    extra = sum(total.nfail.values()) - len(total.fail)
+    if extra:
+        ctx.note('%d further failing tests not listed individually: %s' % (extra, dict(total.nfail)))
+    status, nviol, nknown = common.conclude(ctx)
+    evidence.write('C18', ctx.tier, ctx.seed, 'model_checking', {
+        'states': states, 'transitions': transitions,
+        'traces_validated_against_impl': tstats['traces'],
+        'samples': samples + [{'trace_meta': corpus[(3, 5)][0]['meta'], 'events': corpus[(3, 5)][0]['ev'][:4]}],
+        'evaluations': total.count['evaluations'] + tstats['events'],
+        'distinct_nontrivial': total.count['nontrivial'],
+        'rule': 'one implementation test per transition (pre-state, Feed(symbol), post-state) of the dumped TLC state graphs on a '
+                'real ANSI object built in the pre-state (str / bytes in latin-1, utf-8, cp437; write / process / process_list); '
+                'non-trivial = passed and the state changed; plus every split of every chunking input into <= 4 pieces '
+                '(non-trivial = a real split that passed); plus recorded runs validated by TLC (ScreenAnsiTrace)',
+        'exhaustive': True,
+        'graphs': gstats, 'state_symbol_pairs_replayed': len(pairs),
+        'chunking': {'inputs': len(inputs), 'from_tlc_simulate': nsim, 'splits': ch.count['evaluations'],
+                     'cuts_inside_multibyte': ch.count['cuts_inside_multibyte'], 'simulate_cmd': simres[:1]},
+        'model': {'module': 'MCAnsi', 'runs': [{'cfg': r['cmd'].split('-config ')[1].split()[0], 'distinct': r['distinct'],
+                                                'generated': r['generated'], 'depth': r['depth'], 'wall_s': r['wall_s']} for r in mc],
+                  'action_coverage': {k: v[1] for k, v in cov['coverage'].items()}},
+        'trace_validation': {'module': 'ScreenAnsiTrace', 'tlc_states': tstats['tlc_states'], 'cmd': tstats['cmd'],
+                             'verdict_counts': dict(tstats['verdicts']), 'self_test': st2},
+        'spec_drift': ctx.drift, 'failing_tests_total': dict(total.nfail), 'known_findings_hit': nknown,
+    }, assumptions=[
+        'cell contents are abstracted to {blank, x, other} and numeric parameters saturate at max(rows, cols, 2) + 2: the code '
+        'treats all larger values alike',
+        'input classes: ESC CR LF BS blank x, every character of the transition table, and one class for all other characters',
+        'parameters longer than the interpreter limit for int() (4300 digits) are outside the bounded input length',
+        'a disagreement with AnsiFsm that keeps the stated property (after follow-up input) is SPEC-DRIFT, not a violation',
+    ], wall_s=ctx.wall(), violations=nviol + (extra if nviol else 0))
+    return status
+
+
+# ---------------------------------------------------------------------------------------------
+# replay
+# ---------------------------------------------------------------------------------------------
+def replay(ctx):
+    d = json.load(open(ctx.replay))
+    c = d['case']
+    kind = c['kind']
+    R, C = c['rows'], c['cols']
+    col = Collector()
+    print('replaying %s (%s) on %dx%d' % (kind, d['clause'], R, C))
+    if kind == 'screen-transition':
+        screen_transition(Objects(), R, C, st_unjson(c['pre']), c['action'], tuple(c['args']), c['variant'],
+                          [st_unjson(e) for e in c['expected']], col)
+    elif kind == 'screen-accessor':
+        st = st_unjson(c['state'])
+        variant = SVARIANTS[c['variant'] % len(SVARIANTS)]
+        o = Objects().get(SCR.screen, R, C, variant[0])
+        load_screen(o, st, variant[2])
+        got = str(o) if c['accessor'] == 'str' else getattr(o, c['accessor'])(*c['args'])
+        print('   %s(%s) returned %r, the definition over the grid gives %r' % (c['accessor'], c['args'], got, c['expected']))
+        if got != c['expected']:
+            col.add(d['clause'], c, {'returned': repr(got)}, {})
+    elif kind == 'ansi-transition':
+        ansi_transition(Objects(), R, C, st_unjson(c['pre']), c['sym'], c['variant'], [st_unjson(e) for e in c['expected']], col)
+    elif kind == 'chunking':
+        units = [arg_unjson(u) for u in c['units']]
+        chunk_case(R, C, c['syms'], c['enc'], c['form'], units, col, 3, 1, random.Random(0), only_cuts=c['cuts'])
+    elif kind in ('screen-trace', 'ansi-trace'):
+        if kind == 'screen-trace':
+            ev = run_screen_script(R, C, c['enc'], [tuple(s) for s in c['script']])
+        else:
+            units = [arg_unjson(u) for u in c['units']]
+            ev = run_feed(R, C, c['enc'], [(dd, [c['syms'][k] for k in done]) for dd, done in pieces_of(units, c['cuts'], c['form'])])
+        v, _ = validate(ctx, [{'id': 'replay', 'ev': ev}], R, C, 'replay', procs=1)
+        print('   TLC verdict: %s at event %d' % v['replay'])
+        for e in ev[:v['replay'][1]]:
+            print('     ', json.dumps(e)[:300])
+        if v['replay'][0] != 'ok' and not v['replay'][0].startswith('drift'):
+            col.add(v['replay'][0], c, {'event_index': v['replay'][1] - 1}, {})
+    else:
+        raise tlc.TLCError('unknown replay kind %s' % kind)
+    for clause, case, detail, sig in col.fail:
+        if clause.startswith(ctx.pid + ':'):
+            ctx.fail(clause, case, detail, sig)
+    if not ctx.failures:
+        print('   the case no longer fails')
+    status, _, _ = common.conclude(ctx)
+    return status
+
+
+def run(ctx):
+    pid = ctx.pid
+    os.chdir(ctx.work)      # the emulator appends to ./log on unknown sequences
+    if ctx.replay:
+        return replay(ctx)
+    print('[%s] %s - tier %s seed %d' % (pid, DESCR[pid], ctx.tier, ctx.seed), flush=True)
+    return run_c19(ctx) if pid == 'C19' else run_c18(ctx)
